@@ -84,7 +84,7 @@ class C19(PropCheck):
     id = "C19"
     props_file = "Props/C19.v"
     shard = 60
-    quick_cases = 1200
+    quick_cases = 1000
     thorough_cases = 12000
     assumptions = [
         "coordinates and weights are finite floats (no NaN/inf); |coordinate| < 2^52 * 1e-6 um",
@@ -145,6 +145,26 @@ class C19(PropCheck):
             if v:
                 o[k] = o.get(k, 0) + 1
         o["cases"] = o.get("cases", 0) + 1
+
+    def replay(self, payload: dict) -> int:
+        """accepts a replay written by the driver or a bare case (corpus file);
+        exit 1 iff the named signature (or, for a bare case, any violation) is
+        reproduced on the tree under verification"""
+        case = payload.get("case") if "case" in payload else (payload if "coords" in payload else None)
+        if case is None:
+            print("replay file names a broken obligation, no input to run:")
+            print(json.dumps(payload.get("broken"), indent=1))
+            return 1
+        want = payload.get("signature")
+        _, viols = self.run_impl(case)
+        hit = False
+        for v in viols:
+            mine = want is None or v.signature == want
+            print(("REPRODUCED: " if mine else "also seen: ") + v.signature, "-", v.what[:300])
+            hit = hit or mine
+        if not hit:
+            print("not reproduced" + (f": {want}" if want else ""))
+        return 1 if hit else 0
 
     def extra_checks(self, tier, rng):
         """every permutation of a few small layouts (with a detuning map on
